@@ -47,6 +47,8 @@ type Case struct {
 	MuxMethods bool `json:"mux_methods,omitempty"`
 	// SizeHint, when set, is assigned to Router.SizeHint before Build (the exported tuning knob)
 	SizeHint *int `json:"size_hint,omitempty"`
+	// Generated: the set comes from the generator (a replayed foreign case may hold anything)
+	Generated bool `json:"generated,omitempty"`
 }
 
 // ---- reference model ----
@@ -163,6 +165,7 @@ type answer struct {
 	found  bool
 	data   string
 	params []denco.Param
+	raw    denco.Params // the very slice Lookup returned (not copied): see heldRaw
 	panic  string
 }
 
@@ -196,6 +199,7 @@ func lookup(rt *denco.Router, path string) (a answer) {
 			a.data = fmt.Sprintf("<%T>", d)
 		}
 		a.params = append([]denco.Param(nil), ps...)
+		a.raw = ps
 	}
 	return a
 }
@@ -249,6 +253,11 @@ func runCase(m *mon.M, c *Case) {
 			return
 		}
 		if berr != nil {
+			if c.Generated {
+				// generated sets are well formed (unique structures, unique names inside a pattern): Build has no
+				// reason to refuse them, and a refusal silently shrinks what is explored
+				m.Violate("build-rejects-wellformed-set", fmt.Sprintf("Build refused a generated set of %d patterns: %v", len(pats), berr), c)
+			}
 			m.Class("build-rejected")
 			return
 		}
@@ -283,6 +292,8 @@ func runCase(m *mon.M, c *Case) {
 		}
 	}
 	setHash := fmt.Sprintf("%x", mon.Hash64(strings.Join(sortedCopy(pats), "\x00")))
+	heldRaw := make([][]denco.Param, len(routers))
+	heldStr := make([]string, len(routers))
 	for pi, qp := range c.Paths {
 		path := string(qp)
 		m.Eval(1)
@@ -313,6 +324,13 @@ func runCase(m *mon.M, c *Case) {
 		var first answer
 		for k, rt := range routers {
 			a := lookup(rt, path)
+			// what an earlier Lookup handed out must not change under a later one (the caller still holds it)
+			if k < len(heldRaw) && heldRaw[k] != nil && fmt.Sprint(heldRaw[k]) != heldStr[k] {
+				m.Violate("earlier-result-altered-by-later-lookup/"+reservedIn(path), fmt.Sprintf("params of an earlier Lookup read %s before and %v after Lookup(%q)", heldStr[k], heldRaw[k], path), &Case{Patterns: c.Patterns, Orders: c.Orders[:k+1], Paths: c.Paths[:pi+1], SizeHint: c.SizeHint})
+			}
+			if k < len(heldRaw) {
+				heldRaw[k], heldStr[k] = a.raw, fmt.Sprint(a.raw)
+			}
 			one := &Case{Patterns: c.Patterns, Orders: c.Orders[:k+1], Paths: []mon.Q{qp}, SizeHint: c.SizeHint}
 			if a.panic != "" {
 				m.Violate("lookup-panic/"+feat, fmt.Sprintf("Lookup(%q) panicked: %s", path, a.panic), one)
@@ -506,6 +524,10 @@ func genPattern(r *rand.Rand, id int) string {
 			fmt.Fprintf(&sb, "=:p%d_%d", id, np)
 			np++
 		case k < 18 && s == nseg-1:
+			if np > 0 && r.Intn(3) == 0 {
+				// a wildcard after a literal, inside the last segment of a parameterised record
+				sb.WriteString(word(r))
+			}
 			fmt.Fprintf(&sb, "*w%d", id)
 			return sb.String()
 		case k < 19:
@@ -657,6 +679,7 @@ func genCase(r *rand.Rand, maxPat, norders, npaths int) *Case {
 		c.Orders = append(c.Orders, r.Perm(len(pats)))
 	}
 	c.Paths = mon.QS(genPaths(r, pats, npaths))
+	c.Generated = true
 	c.ViaMux = r.Intn(10) == 0
 	c.MuxMethods = c.ViaMux && r.Intn(2) == 0
 	if r.Intn(4) == 0 {
@@ -679,12 +702,39 @@ func run(m *mon.M) {
 		m.Begin(c)
 		runCase(m, c)
 	}
+	// ladders: many parameter-capable nodes along ONE literal walk (the lookup keeps a candidate per node it
+	// passes and backtracks to them), ended by a catch-all
+	nl := m.N(60, 2000)
+	for i := 0; i < nl; i++ {
+		w := word(r)
+		depth := 6 + r.Intn(14)
+		var pats []string
+		for k := 1; k <= depth; k++ {
+			pats = append(pats, strings.Repeat("/"+w, k)+fmt.Sprintf("/:p%d/x", k))
+		}
+		pats = append(pats, "/*rest")
+		c := &Case{Patterns: mon.QS(pats), Generated: true}
+		for k := 0; k < 3; k++ {
+			c.Orders = append(c.Orders, r.Perm(len(pats)))
+		}
+		var paths []string
+		for k := 1; k <= depth+1; k++ {
+			paths = append(paths, strings.Repeat("/"+w, k)+"/q/r", strings.Repeat("/"+w, k)+"/q/x", strings.Repeat("/"+w, k))
+		}
+		c.Paths = mon.QS(paths)
+		m.Begin(c)
+		runCase(m, c)
+		m.Class("ladder-set")
+	}
 	// large tables
 	big := m.N(3, 30)
 	for i := 0; i < big; i++ {
 		size := 200 + r.Intn(m.N(400, 2800))
+		if i == 0 && m.Shard == 0 {
+			size = 1500 // "thousands of records" in the quick tier too
+		}
 		pats := genBigSet(r, size)
-		c := &Case{Patterns: mon.QS(pats)}
+		c := &Case{Patterns: mon.QS(pats), Generated: true}
 		for k := 0; k < 3; k++ {
 			c.Orders = append(c.Orders, r.Perm(len(pats)))
 		}
